@@ -13,6 +13,7 @@ pub fn streams() -> Vec<Stream> {
     vec![
         Stream { name: "c07_otlp", gen: gen_c07o, run: run_c07o },
         Stream { name: "c09_otlp", gen: gen_c09o, run: run_c09o },
+        Stream { name: "c08_otlp", gen: gen_c08o, run: run_c08o },
     ]
 }
 
@@ -267,4 +268,114 @@ fn gen_c09o(rng: &mut Rng, tier: Tier, _n: usize) -> Vec<String> {
     }
     const SIGS: [&str; 3] = ["logs", "traces", "metrics"];
     ns.iter().enumerate().map(|(i, n)| format!("(c09o {} {})", n, SIGS[i % 3])).collect()
+}
+
+// ------------------------------------------------------------------ c08_otlp: one flush budget across three channels
+
+/// `(c08o T P L TR M)`: T = flush timeout in ms; each signal is `absent`, `ack` (answered at once), `hold` (its request
+/// is parked at the collector and answered P % of T after the flush started) or `stall` (never answered).
+/// One event per configured signal is in flight when `blocking_flush(T)` is called.
+/// output: `flush=<bool> over=<bool>` — `over` = the call took longer than T + max(T/2, 400 ms).
+fn run_c08o(line: &str) -> String {
+    (|| -> Option<String> {
+        let s = Sexp::parse(line)?;
+        let (tag, a) = s.as_tagged()?;
+        if tag != "c08o" || a.len() != 5 {
+            return None;
+        }
+        let (t_ms, p) = (a[0].as_u64()?, a[1].as_u64()?);
+        if t_ms < 200 || t_ms > 5000 || p > 90 {
+            return None;
+        }
+        let mut kinds = Vec::new();
+        for x in &a[2..] {
+            let k = x.as_atom()?;
+            if !["absent", "ack", "hold", "stall"].contains(&k) {
+                return None;
+            }
+            kinds.push(k.to_string());
+        }
+        let c = collector();
+        emit_otlp::verif::set_max_request_size(usize::MAX);
+        emit_otlp::verif::set_request_timeout(LONG);
+        emit_otlp::verif::set_wait_divisor(1);
+        let sigs = [Signal::Logs, Signal::Traces, Signal::Metrics];
+        let mut scripts: HashMap<Signal, VecDeque<Resp>> = HashMap::new();
+        let mut held = 0;
+        for i in 0..3 {
+            match kinds[i].as_str() {
+                "hold" => {
+                    scripts.insert(sigs[i], VecDeque::from(vec![Resp::Hold]));
+                    held += 1;
+                }
+                "stall" => {
+                    scripts.insert(sigs[i], VecDeque::from(vec![Resp::Stall]));
+                }
+                _ => {}
+            }
+        }
+        c.reset(scripts, false);
+        let mut b = emit_otlp::new().resource([("service.name", "e2e")]);
+        if kinds[0] != "absent" {
+            b = b.logs(emit_otlp::logs_proto(emit_otlp::http(c.http_url(sigs[0]))));
+        }
+        if kinds[1] != "absent" {
+            b = b.traces(emit_otlp::traces_proto(emit_otlp::http(c.http_url(sigs[1]))));
+        }
+        if kinds[2] != "absent" {
+            b = b.metrics(emit_otlp::metrics_proto(emit_otlp::http(c.http_url(sigs[2]))));
+        }
+        let otlp = b.spawn();
+        for i in 0..3 {
+            if kinds[i] != "absent" {
+                emit_kind(&otlp, i, 20 + i as i64);
+            }
+        }
+        if !c.wait_holding(held, LONG) {
+            c.release();
+            return Some("harness-error:not-parked".into());
+        }
+        // let the stalled / acknowledged requests reach the collector too
+        std::thread::sleep(Duration::from_millis(60));
+        let t = Duration::from_millis(t_ms);
+        let release_after = Duration::from_millis(t_ms * p / 100);
+        let flushed = std::thread::scope(|sc| {
+            sc.spawn(|| {
+                std::thread::sleep(release_after);
+                c.release();
+            });
+            let t0 = std::time::Instant::now();
+            let f = otlp.blocking_flush(t);
+            (f, t0.elapsed())
+        });
+        // let everything finish: the stalled requests are cut off by a short request timeout
+        c.release();
+        emit_otlp::verif::set_request_timeout(Duration::from_millis(50));
+        emit_otlp::verif::set_wait_divisor(100_000);
+        c.kill_connections();
+        let _ = otlp.blocking_flush(Duration::from_secs(3));
+        emit_otlp::verif::set_wait_divisor(1);
+        emit_otlp::verif::set_request_timeout(LONG);
+        drop(otlp);
+        let slack = std::cmp::max(t / 2, Duration::from_millis(400));
+        let over = flushed.1 > t + slack;
+        let out = format!("flush={} over={}", flushed.0, over);
+        Some(if over {
+            format!("{}\tFAIL:blocking_flush({}ms)-returned-after-{}ms", out, t_ms, flushed.1.as_millis())
+        } else {
+            out
+        })
+    })()
+    .unwrap_or_else(|| "bad-case".into())
+}
+
+fn gen_c08o(rng: &mut Rng, tier: Tier, n: usize) -> Vec<String> {
+    // the slow-but-successful first signal, an answered one, and a stalled last one: the budget case
+    let mut out = vec!["(c08o 1000 80 hold ack stall)".to_string(), "(c08o 800 50 hold hold ack)".to_string()];
+    let extra = if tier == Tier::Thorough { n.max(20) } else { n.min(3) };
+    for _ in 0..extra {
+        let k = |rng: &mut Rng| *rng.pick(&["absent", "ack", "ack", "hold", "hold", "stall"]);
+        out.push(format!("(c08o {} {} {} {} {})", 600 + 100 * rng.below(7), 20 + 10 * rng.below(7), k(rng), k(rng), k(rng)));
+    }
+    out
 }
